@@ -949,6 +949,20 @@ pub fn gen(rng: &mut Rng, thorough: bool, out: &mut Vec<String>) {
             }
         }
     }
+    {
+        // the even/odd recursion of fast_modular_coset_interpolate at one (2^18) and two (2^19) levels, in every
+        // tier: few points, base field, a fixed and a seeded offset (Rust side < 1 s in total; the model takes part)
+        let mut seed = 77_000 + g.r.below(1 << 40);
+        let off = 2 + g.r.below(P - 2);
+        g.push(format!("polyi coset_extrapolate b 7 R:{}:262144 R:{}:2", seed, seed + 1));
+        seed += 2;
+        g.push(format!("polyi par_batch_coset_extrapolate b 16 {} 262144 R:{}:262144 R:{}:3", off, seed, seed + 1));
+        seed += 2;
+        let off = 2 + g.r.below(P - 2);
+        g.push(format!("polyi coset_extrapolate b {} R:{}:524288 R:{}:1", off, seed, seed + 1));
+        seed += 2;
+        g.push(format!("polyi batch_coset_extrapolate b 7 524288 R:{}:524288 R:{}:2", seed, seed + 1));
+    }
     if thorough {
         // sizes the repository's own suite never reaches
         for &n in &t4096 {
@@ -984,7 +998,9 @@ pub fn gen(rng: &mut Rng, thorough: bool, out: &mut Vec<String>) {
         }
         // 2^17 and 2^18: the INTT arm at its upper end and the even/odd recursion (compact pseudo-random form)
         let mut seed = 1000 + g.r.below(1 << 40);
-        for &k in &[16u32, 17, 18] {
+        for &k in &[16u32, 17, 18, 19, 20] {
+            // 2^19, 2^20: two and three levels of the even/odd recursion; the model takes part up to 2^19 with
+            // at most 8 points, everything else there is decided by the implementation-side oracle alone
             for &np in &[1usize, 64, 99, 100] {
                 seed += 2;
                 let off = g.offset();
@@ -1005,8 +1021,10 @@ pub fn gen(rng: &mut Rng, thorough: bool, out: &mut Vec<String>) {
             seed += 2;
             let off = g.offset();
             g.push(format!("polyi par_batch_coset_extrapolate b 16 {} {} R:{}:{} R:{}:{}", off, 1usize << k, seed, 2usize << k, seed + 1, 33));
-            seed += 2;
-            g.push(format!("polyi fast_coset_interpolate b {} R:{}:{}", off, seed, 1usize << k));
+            if k <= 18 {
+                seed += 2;
+                g.push(format!("polyi fast_coset_interpolate b {} R:{}:{}", off, seed, 1usize << k));
+            }
         }
     }
 }
